@@ -650,7 +650,8 @@ theorem detour_run (junk : List (Nat × Layer)) (f : Nat) : ∀ (d : Disk), Disk
             exact ⟨a1, logical_of_norm a2⟩
           cases t with
           | complete cells =>
-            show applyEvs d (detourPre junk d g ++ _) = _ ∧ _
+            have hfor : detourFor junk d (rmTblEv g (.complete cells)) = detourPre junk d g := rfl
+            rw [hfor]
             cases hj : lookupJ junk g with
             | none =>
               have hpre : detourPre junk d g = [] := by unfold detourPre; rw [hj]
@@ -672,7 +673,8 @@ theorem detour_run (junk : List (Nat × Layer)) (f : Nat) : ∀ (d : Disk), Disk
             cases b with
             | true => exact hplain _ rfl
             | false =>
-              show applyEvs d (detourPre junk d g ++ _) = _ ∧ _
+              have hfor : detourFor junk d (rmTblEv g (.part false)) = detourPre junk d g := rfl
+              rw [hfor]
               cases hj : lookupJ junk g with
               | none =>
                 have hpre : detourPre junk d g = [] := by unfold detourPre; rw [hj]
@@ -688,7 +690,8 @@ theorem detour_run (junk : List (Nat × Layer)) (f : Nat) : ∀ (d : Disk), Disk
                 rw [eraseT_updT']
         · exact hplain _ rfl
       · -- an unfinished table
-        show applyEvs d (detourPre junk d g ++ _) = _ ∧ _
+        have hfor : detourFor junk d (.tblRmdir g) = detourPre junk d g := rfl
+        rw [hfor]
         cases hj : lookupJ junk g with
         | none =>
           have hpre : detourPre junk d g = [] := by unfold detourPre; rw [hj]
